@@ -83,7 +83,19 @@ def run_case(case):
                 argv = ['-', '-o', 'out.py'] + argv
                 stdin = src
             extra = {'PYMINIFY_FORCE': '1', 'FORCE_BEST_EFFORT': '1', 'PYMINIFY_VERBOSE': '1'} if case.get('decoy_env') else None
-            rc, out, err = cli.run_cli(argv, d, stdin=stdin, force_best_effort=fbe, env_extra=extra)
+            rc, out, err = cli.run_cli(argv, d, stdin=stdin, force_best_effort=fbe, env_extra=extra, python=case.get('python'))
+            if case.get('python'):
+                # another interpreter runs the tool: its API result is its own business, the size clause is not
+                res['counters']['cli_runs'] += 1
+                after = cli.snapshot(d)
+                written = out if mode in ('stdout', 'stdin') else (after.get('out.py', (None, None))[1] if mode in ('output', 'stdin_output') else after.get('mod.py', (None, None))[1])
+                if rc == 0 and written is not None:
+                    res['counters']['cross_interpreter_size_checks'] = res['counters'].get('cross_interpreter_size_checks', 0) + 1
+                    if len(written) > len(src):
+                        res['violations'].append({'mech': None, 'detail': '[%s, tool running in %s] %s: wrote %d bytes > %d read' % (mode, case.get('interpreter'), ' '.join(argv), len(written), len(src)), 'witness': {}})
+                    elif written != src:
+                        res['nontrivial'].append('x|%s|%s|%s' % (case.get('interpreter'), case['name'], mode))
+                continue
             res['counters']['cli_runs'] += 1
             after = cli.snapshot(d)
             if mode in ('stdout', 'stdin'):
@@ -186,13 +198,29 @@ def main(tier, seed):
             slim['src_b64'] = c['src_b64']
         run.add(slim, r)
     pool.run_cases(gen_cases(tier, seed), 'vf.props.C14:run_case', timeout=120, batch=2, on_result=on, deadline=run.deadline)
+    # the growers again with the tool running in the other interpreters: whatever that interpreter's minifier produces, it may not be larger than what was read
+    interp = dict(common.interpreters())
+    xs = []
+    gl = [(n, b) for n, b in growers() + margin_growers(tier) if not n.startswith(('sjis', 'koi8', 'cp1252', 'latin1'))]
+    for i, (name, b) in enumerate(gl):
+        for version in (['2.7.18', '3.6.15', '3.9.18', '3.13.0'] if tier == 'quick' else [v for v in interp if v != '3.12-venv']):
+            if version in interp:
+                xs.append({'name': name, 'src_b64': base64.b64encode(b).decode(), 'flags': [], 'mode': MODES[(i + len(version)) % len(MODES)], 'python': interp[version], 'interpreter': version,
+                           'stale_output': True, 'timeout': 100})
+
+    def on_x(c, r):
+        slim = {'name': c['name'], 'flags': c['flags'], 'mode': c['mode'], 'interpreter': c['interpreter'], 'python': c['python']}
+        if r.get('status') == 'violation':
+            slim['src_b64'] = c['src_b64']
+        run.add(slim, r)
+    pool.run_cases(xs, 'vf.props.C14:run_case', timeout=120, batch=3, on_result=on_x, deadline=run.deadline)
     return run.finish(
         rule='tiny / empty / comment-only / already-minimal sources, sources whose UTF-8 re-encoding grows (latin-1, cp1252, shift_jis, '
              'koi8-r cookies; raw control characters), the encoding x newline x shebang grid and the seeds x random flag sets x five output '
              'modes, with PYMINIFY_FORCE_BEST_EFFORT absent (and decoy variables present); a second pass with the override; '
              'non-trivial/distinct = distinct (source, mode, grows/shrinks, flags) runs compared byte for byte',
         assumptions=['UTF-8 of minify(bytes, **documented kwargs) is "the minified form"'],
-        min_nontrivial=40, required_counters=['cli_runs', 'passed_through_because_larger', 'passed_through_growth_under_1_percent', 'minified_written', 'override_runs', 'stale_output_files'])
+        min_nontrivial=40, required_counters=['cli_runs', 'passed_through_because_larger', 'passed_through_growth_under_1_percent', 'minified_written', 'override_runs', 'stale_output_files', 'cross_interpreter_size_checks'])
 
 
 def replay(path):
